@@ -384,6 +384,10 @@ def ray_oracle(rs, n, ctx, honor):
                     # known finding F12 (same mechanism): with a step shorter than half a cell the ray wanders inside the
                     # cells around the source, where the interpolated gradient is unreliable
                     key = "C10:monotone-small-step-near-source" if (step < 0.5 * min(d) and near_src) else "C10:monotone"
+                    # known finding F26 (same family): unequal spacings, step shorter than half the LONGEST cell side: the ray
+                    # wanders inside the (elongated) cells around the source before it comes within one step of it
+                    if key == "C10:monotone" and near_src and step < 0.5 * max(d) and max(d) > min(d):
+                        key = "C10:monotone-near-source-step-below-half-longest-side"
                     R.violate(key, f"interpolated traveltime decreases by {-dec.min():.3e} along the ray (vertex {kk})", rep)
     return R
 
